@@ -241,7 +241,13 @@ func (s *c16Scn) setup(callGroups [][]int) error {
 			hostp, portp, _ := net.SplitHostPort(h.addrs[o0.Addr])
 			var port int
 			fmt.Sscanf(portp, "%d", &port)
+			// the two challenge types have their own ports; only the ordered one's is where the CA looks
 			tmpl.ListenHost, tmpl.AltHTTPPort, tmpl.AltTLSALPNPort = hostp, port, port
+			if o0.Kind == "http" {
+				tmpl.AltTLSALPNPort = c15FreePort(hostp)
+			} else {
+				tmpl.AltHTTPPort = c15FreePort(hostp)
+			}
 			tmpl.DisableHTTPChallenge = o0.Kind != "http"
 			tmpl.DisableTLSALPNChallenge = o0.Kind != "tlsalpn"
 		}
